@@ -1511,6 +1511,16 @@ plan("C20", c20, assumptions=A_COMMON + ["A-url: urlsplit(u).geturl() as oracle"
      rule="$schema spellings (each registered id with/without '#', unknown URIs, non-URIs, absent, boolean schemas) x bodies on which the drafts disagree x instances; every case non-trivial")
 
 
+import chan_fmt     # noqa: E402
+import chan_cli     # noqa: E402
+import chan_sys     # noqa: E402
+
+plan("C12", chan_fmt.c12, **chan_fmt.PLAN12)
+plan("C13", chan_fmt.c13, **chan_fmt.PLAN13)
+plan("C18", chan_sys.campaign, **chan_sys.PLAN)
+plan("C19", chan_cli.campaign, **chan_cli.PLAN)
+
+
 def run(prop, tier, seed, proof):
     ctx = Ctx(prop, tier, seed)
     try:
